@@ -335,6 +335,31 @@ def cmdNetConn (args : List String) : String :=
     | _, _, _, _ => "bad-args"
   | _ => "bad-args"
 
+/-- `deadline evs`: evs = comma-separated `<k><side>` with k ∈ z (zero) f (future) p (past, idle) c (call)
+b (blocked call + past deadline during it) and side ∈ r w; prints the call results and whether the connection is closed -/
+def cmdDeadline (args : List String) : String :=
+  match args with
+  | [evs] =>
+    let parse (x : String) : Option Model.NetConn.PEv :=
+      match x.toList with
+      | [k, sd] =>
+        let side : Option Model.NetConn.Side := if sd == 'r' then some .r else if sd == 'w' then some .w else none
+        side.bind fun sd =>
+          if k == 'z' then some (.setZero sd) else if k == 'f' then some (.setFuture sd)
+          else if k == 'p' then some (.setPast sd) else if k == 'c' then some (.call sd)
+          else if k == 'b' then some (.blockedPast sd) else none
+      | _ => none
+    match (if evs == "." then some [] else (evs.splitOn ",").mapM parse) with
+    | some es =>
+      let r := Model.NetConn.prun es Model.NetConn.DL2.init
+      let one : Model.NetConn.CallRes → String
+        | .ok => "ok"
+        | .deadline => "dl"
+        | .fail => "fail"
+      s!"ok {String.intercalate "," (r.2.map one)} {b01 r.1.closed}"
+    | none => "bad-args"
+  | _ => "bad-args"
+
 /-- `json-rt hex`: parse the JSON text with the Lean codec and print it again -/
 def cmdJsonRt (args : List String) : String :=
   match args with
@@ -389,6 +414,7 @@ def handle (line : String) : String :=
     | "srv-ext" => cmdSrvExt args
     | "srv-resp" => cmdSrvResp args
     | "netconn" => cmdNetConn args
+    | "deadline" => cmdDeadline args
     | "json-rt" => cmdJsonRt args
     | "pool-monitor" => cmdPoolMonitor args
     | "ping" => "pong"
